@@ -200,6 +200,18 @@ func runC09(c *Ctx) {
 	c09Seed(c, p, readPackets)
 	c09Arith(c, p, makePacket, padBurst, mpWrite, msl, hdr)
 
+	// ---- R7 the distributions are sampled by the writer goroutine while the reader goroutine may
+	// re-seed them (seed adoption): Reset and Sample must each be one critical section
+	if reset, sample := p.Func("common/probdist:(*WeightedDist).Reset"), p.Func("common/probdist:(*WeightedDist).Sample"); reset != nil && sample != nil {
+		reach := map[*ssa.Function]bool{}
+		for fn := range p.Reachable(reset) {
+			if p.inModule(fn) && relPkg(fn.Pkg.Pkg.Path()) == "common/probdist" {
+				reach[fn] = true
+			}
+		}
+		c12Locks(c, p, "R7", reset, sample, reach)
+	}
+
 	// ---- R4 bounds / panics
 	set := map[*ssa.Function]bool{write: true, padBurst: true, makePacket: true}
 	n := boundsRule(c, set, "R4", "R4", nil)
